@@ -322,6 +322,16 @@ class PendingWhile(_PendingLoop[While]):
                     )
                 )
 
+        while_loop_test = expr_transf(self.nsp, self.node.test)
+        if isinstance(self.node.test, BoolOp):
+            # `a and b` hands the operand that decided it on to takewhile(), which
+            # would test it a second time; a `while` tests each operand once
+            while_loop_test = IfExp(
+                test=while_loop_test,
+                body=Constant(value=True),
+                orelse=Constant(value=False),
+            )
+
         # add additional check in "test"
         # if there is a break
         if self.break_cnt:
@@ -329,11 +339,9 @@ class PendingWhile(_PendingLoop[While]):
                 op=And(),
                 values=[
                     UnaryOp(op=Not(), operand=self.flow_ctrl_break_expr),
-                    expr_transf(self.nsp, self.node.test),
+                    while_loop_test,
                 ],
             )
-        else:
-            while_loop_test = expr_transf(self.nsp, self.node.test)
 
         # "orelse" runs if there's no break
         while_loop_orelse: expr
